@@ -3,6 +3,7 @@ package main
 // Calls: builtins, library models, contracts (modular), inlining, uninterpreted observers, havoc.
 
 import (
+	"sort"
 	"fmt"
 	"go/ast"
 	"go/token"
@@ -414,8 +415,10 @@ func (ex *Exec) havocCall(p *Path, fn *types.Func, mayWriteHeap bool) []Value {
 	sig := fn.Type().(*types.Signature)
 	ex.havocked[fn.FullName()] = true
 	if mayWriteHeap && !ex.isObserverPkg(fn) {
-		ex.havocWhy = append(ex.havocWhy, "call to "+shortKey(fn)+" (no contract, body not inlined)")
-		ex.havocMutableHeap(p)
+		if !ex.havocCalleeWrites(p, fn) {
+			ex.havocWhy = append(ex.havocWhy, "call to "+shortKey(fn)+" (no contract, body not inlined)")
+			ex.havocMutableHeap(p)
+		}
 	}
 	var out []Value
 	for i := 0; i < sig.Results().Len(); i++ {
@@ -914,6 +917,9 @@ func (ex *Exec) applyContract(p *Path, c *Contract, fn *types.Func, recv *Value,
 	}
 	for _, m := range c.Modifies {
 		if m == "*" {
+			if ex.havocCalleeWrites(p, fn) {
+				continue
+			}
 			ex.havocWhy = append(ex.havocWhy, "call to "+c.Key+" (modifies *)")
 			ex.havocMutableHeap(p)
 			continue
@@ -1000,8 +1006,10 @@ func (ex *Exec) applyContract(p *Path, c *Contract, fn *types.Func, recv *Value,
 		t := ex.evalClauseValue(p, l.E)
 		p.names[l.Name] = t
 	}
-	for _, e := range c.Ensures {
-		ex.assumeFact(p, ex.evalClause(p, e.E, true))
+	if !(c.Pure && ex.contract != nil && ex.contract.Opaque[c.Key]) {
+		for _, e := range c.Ensures {
+			ex.assumeFact(p, ex.evalClause(p, e.E, true))
+		}
 	}
 	p.oldHeap, p.oldGen = saveOld, saveOldGen
 	// write the callee's final maps back into the caller's variables
@@ -1099,4 +1107,44 @@ func (ex *Exec) havocField(p *Path, v Value, field string, pos token.Pos) {
 		return
 	}
 	ex.unsupp(pos, "modifies: no field %s", field)
+}
+
+// havocCalleeWrites forgets exactly the heap cells a repository function of the generator packages may write
+// according to the static write summary of its call tree (modref.go). It returns false when no such summary
+// exists (emitted code, unresolved calls): the caller then forgets the whole mutable heap.
+func (ex *Exec) havocCalleeWrites(p *Path, fn *types.Func) bool {
+	if fn == nil || !ex.w.IsRepoFunc(fn) || ex.emittedPkg(fn) {
+		return false
+	}
+	f := fn
+	if f.Origin() != nil {
+		f = f.Origin()
+	}
+	keys, derefs, globals, ok, why := ex.w.WriteSetOf(f.FullName())
+	if !ok {
+		ex.havocWhy = append(ex.havocWhy, "write set of "+shortKey(fn)+" is not static: "+why)
+		return false
+	}
+	fresh := func(k string, t types.Type) {
+		if !ex.isMutableKey(k) {
+			return
+		}
+		p.heap[k] = ex.c.Fresh("H:"+k, "(Array Ref "+ex.c.SortOf(t)+")")
+	}
+	var ks []string
+	for k := range keys {
+		ks = append(ks, k)
+	}
+	sort.Strings(ks)
+	for _, k := range ks {
+		fresh("~"+k, keys[k])
+	}
+	for _, t := range derefs {
+		fresh("deref:"+sortToken(ex.c.SortOf(t)), t)
+	}
+	for _, v := range globals {
+		fresh("global:"+v.Pkg().Name()+"."+v.Name(), v.Type())
+	}
+	ex.c.Trust("static write sets (modref): a call of a generator function changes only cells its call tree assigns, plus fields of types that escape to reflection-based library code")
+	return true
 }
